@@ -50,11 +50,11 @@ func malformed(format string, a ...any) error { return &Malformed{fmt.Sprintf(fo
 
 // Packet is a decoded MQTT control packet.
 type Packet struct {
-	Type  byte
-	Flags byte
-	Body  []byte // variable header + payload (raw)
-	HdrLen int   // bytes of fixed header
-	MinimalLen bool // remaining length used the minimal encoding
+	Type       byte
+	Flags      byte
+	Body       []byte // variable header + payload (raw)
+	HdrLen     int    // bytes of fixed header
+	MinimalLen bool   // remaining length used the minimal encoding
 
 	// CONNECT
 	ProtoName  string
